@@ -21,14 +21,24 @@ TOL = 1e-9
 K = 3
 
 
+SDIM_CLASSES = ("EOF", "EOFRotator", "MCA", "CCA")
+
+
 def cases(tier, seed):
     out = []
     i = 0
     for cls in CLASSES:
         for st, cl in FLAGS:
             for rep in range(1 if tier == "quick" else 4):
-                out.append(dict(kind="bands", cls=cls, op="split_lat", container="da", standardize=st, coslat=cl, dseed=int(gen.rng_for(7100 + seed * (rep > 0), i).integers(0, 2**31 - 1))))
+                out.append(dict(kind="bands", cls=cls, op="split_lat", container="da", standardize=st, coslat=cl, weights=bool((i + rep) % 2),
+                                dseed=int(gen.rng_for(7100 + seed * (rep > 0), i).integers(0, 2**31 - 1))))
                 i += 1
+    # two sample dimensions with entirely missing samples spread unevenly over them, axes exchanged
+    for cls in SDIM_CLASSES:
+        for rep in range(2 if tier == "quick" else 8):
+            out.append(dict(kind="bands", sub="sdims", cls=cls, op="transpose_nan", container="da", standardize=bool(rep % 2), coslat=False,
+                            dseed=int(gen.rng_for(7200 + seed * (rep > 1), i).integers(0, 2**31 - 1))))
+            i += 1
     return out
 
 
@@ -44,7 +54,7 @@ def _field(rng, n, nlat, nlon, lat, units):
     return xr.DataArray(A, dims=("time", "lat", "lon"), coords={"time": np.arange(n) * 2 + 5, "lat": lat, "lon": np.arange(nlon) * 20.0 + 1.0})
 
 
-def _read(f, fields):
+def _read(f, fields, sdims=("time",)):
     """(spectra dict, scores list (mode, n), components list of DataArrays or lists)"""
     m = f.model
     sp = {}
@@ -55,7 +65,7 @@ def _read(f, fields):
                 sp[nm] = np.asarray(fn().values)
             except Exception:  # noqa: BLE001  (accessor not available for this class)
                 pass
-    sc = [np.asarray(s.transpose("mode", "time").values) for s in f.scores()]
+    sc = [np.asarray(s.transpose("mode", *sdims).sortby(list(sdims)).values).reshape(s.sizes["mode"], -1) for s in f.scores()]
     comps = f.components()
     return sp, sc, comps
 
@@ -70,7 +80,85 @@ def _assemble(c):
     return np.asarray(c.transpose("mode", "lat", "lon").values), np.asarray(c["lat"].values)
 
 
+def _compare(obs, tg, fj, fs, data_j, data_s, sdims):
+    # models that whiten a covariance (CCA: alpha = 0) amplify the round-off of a re-ordered summation by the
+    # condition of that covariance: one tolerance class up
+    wh = 100.0 if fj.name in ("CCA",) else 1.0
+    spj, scj, cj = _read(fj, data_j, sdims)
+    sps, scs, cs = _read(fs, data_s, sdims)
+    obs.count("relation:compared")
+    for nm in spj:
+        if nm in sps:
+            a, b = spj[nm][:K], sps[nm][:K]
+            obs.close(f"spectrum:{nm}", b, a, TOL * wh, scale=float(np.max(np.abs(a))) or 1.0, tags=dict(tg, symptom="spectrum_differs", what=nm))
+    a, b = scj[0][:K], scs[0][:K]
+    fin = np.isfinite(a) & np.isfinite(b)
+    obs.check("scores:nan_pattern", bool(np.array_equal(np.isfinite(a), np.isfinite(b))), "missing-sample pattern of the scores differs", tags=dict(tg, symptom="scores_differ"))
+    ph = np.sum(np.where(fin, a * np.conj(b), 0), axis=1)
+    ph = ph / np.where(np.abs(ph) > 0, np.abs(ph), 1.0)
+    for k, (sj, ss) in enumerate(zip(scj, scs)):
+        sj, ss = sj[:K], ss[:K]
+        ok = np.isfinite(sj) & np.isfinite(ss)
+        obs.close(f"scores:{k}", np.where(ok, ss * ph[:, None], 0), np.where(ok, sj, 0), 1e-7 * wh, scale=float(np.nanmax(np.abs(sj))) or 1.0, tags=dict(tg, symptom="scores_differ"))
+    for k, (c1, c2) in enumerate(zip(cj, cs)):
+        A, la = _assemble(c1)
+        B, lb = _assemble(c2)
+        if not obs.check(f"components:{k}:labels", A.shape == B.shape and np.array_equal(la, lb), f"component labels differ: {la} vs {lb}", tags=dict(tg, symptom="labels_differ")):
+            continue
+        obs.close(f"components:{k}", B[:K] * ph[:, None, None], A[:K], 1e-7 * wh, scale=float(np.max(np.abs(A[:K]))) or 1.0, tags=dict(tg, symptom="components_differ"))
+
+
+def run_sdims(case, obs):
+    """(time, member, lat, lon) with missing (time, member) samples, versus the same array stored as (member, time, ..)"""
+    import xarray as xr
+
+    cls = case["cls"]
+    st = case["standardize"]
+    obs.tag(cls=cls, op="transpose_nan", container="da", names_default=True, standardize=bool(st), coslat=False)
+    obs.cell(f"cls:{cls}", "op:transpose_nan", f"sdims_nan:{cls}")
+    rng = gen.rng_for(case["dseed"], 72)
+    nt, nmem = int(rng.integers(10, 16)), int(rng.integers(3, 5))
+    nlat, nlon = int(rng.integers(3, 5)), int(rng.integers(2, 4))
+    n = nt * nmem
+    lat = np.linspace(-40.0, 60.0, nlat)
+    # one member misses a block of time steps, another a single one: the missing samples are not spread evenly
+    miss = np.zeros((nt, nmem), dtype=bool)
+    miss[: int(rng.integers(3, nt // 2 + 1)), 0] = True
+    miss[int(rng.integers(0, nt)), nmem - 1] = True
+
+    def field(nla, nlo, la):
+        X = _field(rng, n, nla, nlo, la, np.ones(nla))
+        A = X.values.reshape(nt, nmem, nla, nlo) + 3.0 * rng.standard_normal((1, nmem, 1, 1))  # member offsets: the means matter
+        A[miss] = np.nan
+        return xr.DataArray(A, dims=("time", "member", "lat", "lon"), coords={"time": np.arange(nt) * 2 + 5, "member": [f"m{j}" for j in range(nmem)], "lat": la, "lon": np.arange(nlo) * 20.0 + 1.0})
+
+    two = zoo.kind(cls) in ("cross", "cross_rot")
+    X = field(nlat, nlon, lat)
+    data_j = [X]
+    data_s = [X.transpose("member", "time", "lon", "lat")]
+    if two:
+        Y = field(3, 2, np.linspace(-30.0, 30.0, 3))
+        Y.values[:, :, 0, :] += 2 * np.nan_to_num(X.values[:, :, :1, 0])
+        Y.values[miss] = np.nan
+        data_j, data_s = [X, Y], [data_s[0], Y.transpose("member", "time", "lat", "lon")]
+    base = zoo.SINGLE_ROT.get(cls) or (zoo.CROSS_ROT[cls][0] if cls in zoo.CROSS_ROT else cls)
+    kw = zoo.default_kwargs(base, n_modes=K + 1, standardize=st, use_coslat=False)
+    if zoo.kind(base) == "cross":
+        kw.update(use_pca=False)
+    rot_kw = {"n_modes": K, "power": 1, "max_iter": 5000, "rtol": 1e-13}
+    dim = ("time", "member")
+    with warnings.catch_warnings():
+        warnings.simplefilter("ignore")
+        fj = zoo.fit(cls, data_j, dim, kw, rot_kw=rot_kw)
+        fs = zoo.fit(cls, data_s, dim, kw, rot_kw=rot_kw)
+        obs.count("relation:sdims_nan")
+        _compare(obs, {"relation": "sample_axes_exchanged_with_missing_samples"}, fj, fs, data_j, data_s, dim)
+    obs.nontrivial = True
+
+
 def run(case, obs):
+    if case.get("sub") == "sdims":
+        return run_sdims(case, obs)
     cls = case["cls"]
     st, cl = case["standardize"], case["coslat"]
     obs.tag(cls=cls, op="split_lat", container="da", names_default=True, standardize=bool(st), coslat=bool(cl))
@@ -101,30 +189,27 @@ def run(case, obs):
     if zoo.kind(base) == "cross":
         kw.update(use_pca=False)
     rot_kw = {"n_modes": K, "power": 1, "max_iter": 5000, "rtol": 1e-13}
+    # user weights (every second case): labelled (lat, lon) factors; the split presentation gets them split the
+    # same way, and a third presentation stores the field north-south reversed while the weights keep their order
+    wj = ws = None
+    use_w = bool(case.get("weights"))
+    if use_w:
+        import xarray as xr
+
+        w = xr.DataArray(rng.uniform(0.5, 2.0, size=(nlat, nlon)), dims=("lat", "lon"), coords={"lat": X.lat, "lon": X.lon})
+        wsplit = [w.isel(lat=slice(0, cut)), w.isel(lat=slice(cut, None))]
+        wj, ws = [w] + ([None] if two else []), [wsplit] + ([None] if two else [])
+        obs.cell("bands:weights")
+    obs.tag(user_weights=use_w)
     with warnings.catch_warnings():
         warnings.simplefilter("ignore")
-        fj = zoo.fit(cls, data_j, "time", kw, rot_kw=rot_kw)
-        fs = zoo.fit(cls, data_s, "time", kw, rot_kw=rot_kw)
-        spj, scj, cj = _read(fj, data_j)
-        sps, scs, cs = _read(fs, data_s)
-    tg = {"relation": "lat_bands"}
-    obs.count("relation:compared")
-    obs.count("relation:lat_bands")
-    for nm in spj:
-        if nm in sps:
-            a, b = spj[nm][:K], sps[nm][:K]
-            obs.close(f"spectrum:{nm}", b, a, TOL, scale=float(np.max(np.abs(a))) or 1.0, tags=dict(tg, symptom="spectrum_differs", what=nm))
-    # sign (phase) alignment per mode on the first field's scores
-    a, b = scj[0][:K], scs[0][:K]
-    ph = np.sum(a * np.conj(b), axis=1)
-    ph = ph / np.where(np.abs(ph) > 0, np.abs(ph), 1.0)
-    for k, (sj, ss) in enumerate(zip(scj, scs)):
-        sj, ss = sj[:K], ss[:K]
-        obs.close(f"scores:{k}", ss * ph[:, None], sj, 1e-7, scale=float(np.max(np.abs(sj))) or 1.0, tags=dict(tg, symptom="scores_differ"))
-    for k, (c1, c2) in enumerate(zip(cj, cs)):
-        A, la = _assemble(c1)
-        B, lb = _assemble(c2)
-        if not obs.check(f"components:{k}:labels", A.shape == B.shape and np.array_equal(la, lb), f"component labels differ: {la} vs {lb}", tags=dict(tg, symptom="labels_differ")):
-            continue
-        obs.close(f"components:{k}", B[:K] * ph[:, None, None], A[:K], 1e-7, scale=float(np.max(np.abs(A[:K]))) or 1.0, tags=dict(tg, symptom="components_differ"))
+        fj = zoo.fit(cls, data_j, "time", kw, rot_kw=rot_kw, weights=wj)
+        fs = zoo.fit(cls, data_s, "time", kw, rot_kw=rot_kw, weights=ws)
+        obs.count("relation:lat_bands")
+        _compare(obs, {"relation": "lat_bands"}, fj, fs, data_j, data_s, ("time",))
+        if use_w:
+            data_r = [X.isel(lat=slice(None, None, -1))] + data_j[1:]
+            fr = zoo.fit(cls, data_r, "time", kw, rot_kw=rot_kw, weights=wj)
+            obs.count("relation:reversed_lat_with_weights")
+            _compare(obs, {"relation": "reversed_lat_with_weights"}, fj, fr, data_j, data_r, ("time",))
     obs.nontrivial = True
